@@ -1,4 +1,5 @@
 import GlonaxModel.Spec.C18
+import GlonaxModel.Model.Session
 /-! THEOREMS C18: every reachable interlock state × every event (hence event sequences of any length). -/
 namespace Glonax.Thm.C18
 open Glonax Wire Input Spec.C18
@@ -292,5 +293,12 @@ theorem C18_sequences (d : Dev) (s : St) (hr : RpmOk s) (es : List Event) :
       rcases hp with rfl | hp
       · exact ⟨fun hl => (C18_locked_means_locked s hl sc).1, (C18_engine_range s hr sc).1, C18_deadband s sc⟩
       · exact ih _ (s.step sc).1 (C18_engine_range s hr sc).2 p hp
+
+/-- "registers a failsafe session unless told otherwise": a client built with the failsafe option (what
+`unix_connect_safe` / `connect_safe` do, and what glonax-input uses by default) sends a session frame the daemon reads as
+failsafe, over either transport and whatever the other options; without the option it does not -/
+theorem C18_failsafe_session_registered (unix control command failsafe stream : Bool) :
+    Sess.wantsFailsafe (Sess.clientFlags unix control command failsafe stream) = failsafe := by
+  cases unix <;> cases control <;> cases command <;> cases failsafe <;> cases stream <;> decide
 
 end Glonax.Thm.C18
